@@ -27,7 +27,7 @@ CARRIED_BY = {
     "sequences of `[[ ]]` and `alignas( )` groups of any length are consumed whole and the token after them stays in the stream": "theorem C13_attribute_sequence",
     "unbalanced `<`/`>` inside attribute arguments (tolerance rule), the ctor-initializer scan, and that each construct calls its consumer": "oracle `soup` + correspondence `parse[regions]` (not proof)",
 }
-ASSUMPTIONS = ["soups contain no preprocessor lines", "tokens are never glued (`[` `[` would lex as `[[`): the soup is a sequence of lexer tokens"]
+ASSUMPTIONS = ["soups contain no preprocessor lines", "in regions consumed by the balanced-token matcher tokens are never glued (`[` `[` would lex as `[[`, a different, unbalanced token sequence); in regions skipped by bracket counting 40% of the soups are written with brackets glued"]
 MODEL_COVERAGE = "Parser/Basic.lean: discardContents, consumeBalancedTokens; Parser/Decl.lean: attribute and static_assert consumers, discardCtorInitializer"
 
 # (template, number of regions, which regions use the balanced-token matcher)
@@ -82,6 +82,23 @@ def render(rng, toks):
     return "".join(out)
 
 
+GLUABLE = set("[](){}<>")
+
+
+def render_tight(rng, toks):
+    """for regions skipped by bracket COUNTING (`_discard_contents`: bodies, constructor initializer arguments): brackets
+    are written without layout between them, so that `[` `[` reaches the parser as one `[[` token, `]` `]` as `]]`,
+    `>` `>` as `>>`.  The characters are still balanced and the region must still be skipped exactly."""
+    out = []
+    prev = None
+    for t in toks:
+        if prev is not None and not (prev in GLUABLE and t in GLUABLE and rng.random() < 0.8):
+            out.append(rng.choice([" ", " ", "\n", " /* c */ "]))
+        out.append(t)
+        prev = t
+    return "".join(out)
+
+
 def angle_issue(toks):
     """a `>` or `>>` that closes no open `<` at its nesting level (the balanced-token matcher rejects it)"""
     stack = [0]
@@ -128,7 +145,7 @@ def run(ctx):
         toks = flat
         if kind == "bal" and tmpl.startswith("[[%s") and "]]" in toks:
             pass
-        content = render(rng, toks)
+        content = render_tight(rng, toks) if kind != "bal" and rng.random() < 0.4 else render(rng, toks)
         text = tmpl % (" " + content + " ")
         nontrivial = len(toks) >= 4 and any(t in ("(", "[", "{", "[[") for t in toks)
         ctx.count(text, nontrivial=nontrivial)
